@@ -145,7 +145,7 @@ func oracleReads(probes [][]byte) Oracle {
 		if v := checkReader("working", mutReader{t}, m.WorkC, probes); v != nil {
 			return v
 		}
-		for ver := int64(0); ver <= m.Latest+1; ver++ {
+		for _, ver := range m.VersionCandidates(0) {
 			c, retained := m.Conts[ver]
 			if !retained {
 				continue // availability of non-retained versions is C14's subject
